@@ -326,9 +326,12 @@ def initialize_port_release_snippet(port: CppPortItf, multiclient: MultiClientPo
     stdfunction_arguments = '(' + ', '.join(args) + ')' if args else ''
     call_arguments = ', '.join([arg.name for arg in event.signature.formals.elements])
 
-    lambda_body = TextBlock(
-        [f'{port.accessor_target}.Arbitered().in.{event.name}({call_arguments});',
-         f'{port.accessor_target}.Deselect(identifier);'])
+    forwarded_call = f'{port.accessor_target}.Arbitered().in.{event.name}({call_arguments})'
+    deselect = f'{port.accessor_target}.Deselect(identifier);'
+    if event.signature.type_name.value == ns_ids_t('void'):
+        lambda_body = TextBlock([f'{forwarded_call};', deselect])
+    else:  # hand the reply of a valued release event back to the client
+        lambda_body = TextBlock([f'const auto r = {forwarded_call};', deselect, 'return r;'])
 
     return TextBlock([f'port.in.{event.name} = [&, identifier]{stdfunction_arguments} {{',
                       f'{lambda_body.indent()}',
